@@ -329,7 +329,8 @@ pub fn run(tier: &str, seed: u64, out: &str) {
     let tot = Tot { states: AtomicU64::new(0), attack: AtomicU64::new(0), defence: AtomicU64::new(0), searches: AtomicU64::new(0) };
     let mut parts = Vec::new();
     let mut samples = Vec::new();
-    let wall_cap = if thorough { 3000.0 } else { 100.0 };
+    // only a guard against pathological slowness: coverage must not depend on how busy the machine is
+    let wall_cap = if thorough { 6000.0 } else { 900.0 };
 
     // ---- neighbourhoods of the special roots (model-side enumeration to depth d)
     {
